@@ -249,6 +249,9 @@ def gen_tree(r, absdir):
     """engine A: (fs, top)"""
     sub = r.choice(SUBDIRS_A)
     names = NAMES[:r.range(1, 5)]
+    if r.chance(1, 4):
+        # names that merely LOOK like as-is paths (start with dots, no slash after them): still looked up in the file's directory
+        names = names + [r.choice([b"..spare", b".hid", b"...x"])]
     fs = gen_files(r, sub, names, True, absdir)
     top = (sub + b"/" if sub else b"") + r.choice(names)
     if r.chance(1, 20):
@@ -272,6 +275,8 @@ def gen_cmdline(r, absdir):
     fs, tops = {}, []
     for sub in subs:
         names = NAMES[:r.range(1, 4)]
+        if r.chance(1, 4):
+            names = names + [r.choice([b"..spare", b".hid", b"...x"])]
         fs.update(gen_files(r, sub, names, False, absdir))
         tops += [(sub + b"/" if sub else b"") + n for n in names]
     top_names = sorted(set(os.path.basename(t) for t in tops))
